@@ -484,7 +484,7 @@ func (t *T) Try(family string, in []int64, nontrivial bool) bool {
 	if len(c.kernel) < 150 && f == nil && len(in) < 400 && c.P.Oracle == nil && c.P.numOf(in) == c.P.Num {
 		c.kernel = append(c.kernel, [2][]int64{in, nil})
 	}
-	if len(c.kernel) < 150 && f == nil && c.P.Oracle != nil && t.last0 != nil && len(t.last0) < 2500 && c.evals%97 == 0 {
+	if len(c.kernel) < 150 && f == nil && c.P.Oracle != nil && t.last0 != nil && len(t.last0) < 2500 && c.evals%97 == 0 && c.P.numOf(in) == c.P.Num {
 		// oracle property: the case together with its completed table is a closed term the kernel can evaluate
 		c.kernel = append(c.kernel, [2][]int64{append([]int64{}, t.last0...), nil})
 	}
